@@ -268,7 +268,20 @@ func StartCAGroup(specs []CAServerSpec) (*CAGroup, error) {
 			if cfg.MinVersion == 0 {
 				cfg.MinVersion = tls.VersionTLS10
 			}
+			otherPool := x509.NewCertPool()
+			otherPool.AddCert(f.cas["caForeign"])
 			switch sp.ClientAuth {
+			case "request-otherca": // asks, names a CA that did not issue the RA's certificate, enforces nothing
+				cfg.ClientAuth = tls.RequestClientCert
+				cfg.ClientCAs = otherPool
+			case "verifyifgiven": // verifies what it gets against the right client CA
+				cfg.ClientAuth = tls.VerifyClientCertIfGiven
+				pool := x509.NewCertPool()
+				pool.AddCert(f.cas["caClients"])
+				cfg.ClientCAs = pool
+			case "verifyifgiven-otherca": // verifies what it gets against another CA: the RA's certificate is refused
+				cfg.ClientAuth = tls.VerifyClientCertIfGiven
+				cfg.ClientCAs = otherPool
 			case "request":
 				cfg.ClientAuth = tls.RequestClientCert
 			case "require":
